@@ -47,6 +47,7 @@ def run(ctx):
     scan_rule(ctx, syn)
     parse_rule(ctx, syn)
     merge_rule(ctx, syn)
+    delegate_rule(ctx)
 
 
 # ====================================================================== TEST
@@ -834,3 +835,26 @@ def merge_rule(ctx, syn):
     good = [a for a in assigns if any(x.get("k") == "path" and len(x["path"]) == 1 and x["path"][0] in recv for x in walk(a["right"]))]
     if not good:
         ctx.report(r, "key-not-remapped", "AnnotationDataSet::merge inserts the data of the other set with the key handles of the *other* set%s: after the merge a data item is listed under whatever key has that number here (key.data() and find_data(key, ..) answer for the wrong key)" % ("" if not assigns else " (the key is assigned, but not from the handles returned by inserting the other set's keys)"), fn.file, inserts[0].get("l"))
+
+
+# ---------------------------------------------------------------------- DELEGATE
+def delegate_rule(ctx, rid="C10.DELEGATE"):
+    """every data filter ends in ResultItem<AnnotationData>::test(key, operator); TEST decides DataValue::test.  The two
+    agree only if the first answers through the second on every path (the constant false for another key apart): a
+    shortcut for one operator (`*value == s` for Equals) has its own, narrower idea of equality."""
+    import mirq
+    r = ctx.rule(rid, "ResultItem<AnnotationData>::test answers through DataValue::test on every path; the only other answer is the constant false (another key)")
+    prog = mirq.Program(ctx.facts.mir())
+    bs = prog.find_bodies(r"^api::annotationdata::<impl store::ResultItem<'store, annotationdata::AnnotationData>>::test$")
+    if len(bs) != 1:
+        ctx.anchor_missing(r, "ResultItem<AnnotationData>::test")
+        return
+    b = bs[0]
+    ctx.functions_analysed.add(b.id)
+    thr = set(bi for bi, t in b.calls() if (mirq.callee_of(t)[0] or "").endswith("datavalue::DataValue::test"))
+    other = mirq.undelegated_results(b, thr)
+    r.hit(b.id, sample={"delegating_calls": len(thr), "other_answers": [o_[1] for o_ in other]})
+    if not thr:
+        ctx.report(r, "no-delegation", "ResultItem<AnnotationData>::test no longer calls DataValue::test", b.file, b.line)
+    for bi, what, line in other[:1]:
+        ctx.report(r, "own-answer", "ResultItem<AnnotationData>::test can answer `%s` without asking DataValue::test: data search through the filters then differs from a scan with the operator (e.g. `= \"5\"` no longer finds the integer 5)" % what, b.file, line)
